@@ -95,6 +95,78 @@ pub open spec fn representable_app(padding: int, subtype: int, name: Seq<u8>, na
     &&& 12 + data.len() + padding <= MAX_RTCP_BYTES
 }
 
+// ---- RFC 3550 6.4.1 / 6.4.2: SR, RR and report blocks ---------------------------------------------
+// report block: SSRC_n | fraction lost (8) cumulative lost (24) | ext. highest seq | jitter | LSR | DLSR
+pub open spec fn rb_ssrc(b: Seq<u8>) -> int { be32(b, 0) }
+pub open spec fn rb_fraction(b: Seq<u8>) -> int { b[4] as int }
+pub open spec fn rb_cum_lost(b: Seq<u8>) -> int { (b[5] as int * 256 + b[6] as int) * 256 + b[7] as int }
+pub open spec fn rb_ext_seq(b: Seq<u8>) -> int { be32(b, 8) }
+pub open spec fn rb_jitter(b: Seq<u8>) -> int { be32(b, 12) }
+pub open spec fn rb_lsr(b: Seq<u8>) -> int { be32(b, 16) }
+pub open spec fn rb_dlsr(b: Seq<u8>) -> int { be32(b, 20) }
+
+pub open spec fn img_rb(ssrc: int, fraction: int, cum: int, ext: int, jitter: int, lsr: int, dlsr: int) -> Seq<u8> {
+    img_be32(ssrc) + seq![fraction as u8, ((cum / 65536) % 256) as u8, ((cum / 256) % 256) as u8, (cum % 256) as u8]
+        + img_be32(ext) + img_be32(jitter) + img_be32(lsr) + img_be32(dlsr)
+}
+
+/// SR: header(RC, PT=200) | SSRC | NTP (64) | RTP ts | packet count | octet count | RC report blocks
+pub open spec fn sr_ok(s: Seq<u8>) -> bool {
+    framed(s, 200, 28) && 28 + 24 * hdr_count(s) <= s.len()
+}
+
+/// RR: header(RC, PT=201) | SSRC | RC report blocks
+pub open spec fn rr_ok(s: Seq<u8>) -> bool {
+    framed(s, 201, 8) && 8 + 24 * hdr_count(s) <= s.len()
+}
+
+/// the i-th report block of a packet whose blocks start at `base`
+pub open spec fn report_block_bytes(s: Seq<u8>, base: int, i: int) -> Seq<u8> {
+    s.subrange(base + 24 * i, base + 24 * i + 24)
+}
+
+/// images of SR / RR (the report-block images are supplied as a sequence of 24-byte images)
+pub open spec fn concat_blocks(blocks: Seq<Seq<u8>>, k: int) -> Seq<u8>
+    decreases k,
+{
+    if k <= 0 {
+        Seq::empty()
+    } else {
+        concat_blocks(blocks, k - 1) + blocks[k - 1]
+    }
+}
+
+pub open spec fn img_sr_prefix(ssrc: int, padding: int, ntp: int, rtp: int, pc: int, oc: int, blocks: Seq<Seq<u8>>, k: int) -> Seq<u8> {
+    img_header(padding, blocks.len() as int, 200, 28 + 24 * blocks.len() + padding) + img_be32(ssrc) + img_be64(ntp) + img_be32(rtp)
+        + img_be32(pc) + img_be32(oc) + concat_blocks(blocks, k)
+}
+
+pub open spec fn img_sr(ssrc: int, padding: int, ntp: int, rtp: int, pc: int, oc: int, blocks: Seq<Seq<u8>>) -> Seq<u8> {
+    img_sr_prefix(ssrc, padding, ntp, rtp, pc, oc, blocks, blocks.len() as int) + img_padding(padding)
+}
+
+pub open spec fn img_rr_prefix(ssrc: int, padding: int, blocks: Seq<Seq<u8>>, k: int) -> Seq<u8> {
+    img_header(padding, blocks.len() as int, 201, 8 + 24 * blocks.len() + padding) + img_be32(ssrc) + concat_blocks(blocks, k)
+}
+
+pub open spec fn img_rr(ssrc: int, padding: int, blocks: Seq<Seq<u8>>) -> Seq<u8> {
+    img_rr_prefix(ssrc, padding, blocks, blocks.len() as int) + img_padding(padding)
+}
+
+pub proof fn lemma_concat_blocks_len(blocks: Seq<Seq<u8>>, k: int, w: int)
+    requires
+        0 <= k <= blocks.len(),
+        forall|i: int| 0 <= i < blocks.len() ==> (#[trigger] blocks[i]).len() == w,
+    ensures
+        concat_blocks(blocks, k).len() == k * w,
+    decreases k,
+{
+    if k > 0 {
+        lemma_concat_blocks_len(blocks, k - 1, w);
+        assert(k * w == (k - 1) * w + w) by (nonlinear_arith);
+    }
+}
+
 // ---- error truthfulness (property C18) ------------------------------------------------------------
 pub open spec fn err_truthful(s: Seq<u8>, e: crate::RtcpParseError, own_pt: int) -> bool {
     match e {
